@@ -5,7 +5,7 @@ import json
 from collections import Counter
 
 from . import drive, tlc
-from .core import Ctx, Result, Violation, digest, write_replay
+from .core import Ctx, Result, add_violation, digest
 
 TOL_EXACT = [1, 4096]
 TOL_INEXACT = [1, 128]
@@ -76,9 +76,9 @@ def run_pipeline(ctx: Ctx, res: Result, specs, *, nontrivial=None, trace_module=
             n_fail += 1
             clause = v["v"][1]
             clauses[clause] += 1
-            replay = write_replay(ctx.prop, {"kind": "pipeline", "property": ctx.prop, "spec": spec, "case": case,
-                                             "verdict": v, "trace_module": trace_module})
-            res.violations.append(Violation(clause, replay, f"case {case['cid']} ({spec.get('label', '')}): {v['v'][2]}"))
+            add_violation(ctx, res, clause, {"kind": "pipeline", "property": ctx.prop, "spec": spec, "case": case,
+                                             "verdict": v, "trace_module": trace_module},
+                          f"case {case['cid']} ({spec.get('label', '')}): {v['v'][2]}")
     res.merge_cov(
         evaluations=len(specs),
         traces_validated_against_impl=n_ok,
